@@ -181,7 +181,7 @@ pub fn single_run(words: &[u16], p: &Profile) -> Scenario {
     let mut d = D::new(words);
     let cfg = decode_cfg(&mut d, p.vary_cfg);
     let cas = decode_forest(&mut d, p);
-    let steps = vec![Step { publish: vec![0; cas.len()], fail_modules: vec![], offline: false, stale: None }];
+    let steps = vec![Step { publish: vec![0; cas.len()], fail_modules: vec![], offline: false, stale: None, foreign_tal_key: vec![] }];
     Scenario { cfg, cas, steps }
 }
 
@@ -281,7 +281,7 @@ pub fn history_run(words: &[u16], hp: &HistProfile) -> Scenario {
             .collect();
         let fail_modules = (0..p.modules).filter(|_| d.chance(hp.fail_module_16, 16)).collect();
         let offline = s > 0 && d.chance(hp.offline_16, 16);
-        steps.push(Step { publish, fail_modules, offline, stale: None });
+        steps.push(Step { publish, fail_modules, offline, stale: None, foreign_tal_key: vec![] });
     }
     Scenario { cfg, cas, steps }
 }
